@@ -30,6 +30,7 @@ use swimos_utilities::{
     byte_channel::{self, ByteReader, ByteWriter},
     trigger,
 };
+use tokio::io::AsyncReadExt;
 use tokio::sync::{mpsc, oneshot};
 use tokio_stream::wrappers::ReceiverStream;
 use tokio_util::codec::FramedRead;
@@ -374,8 +375,14 @@ impl Initialization {
     }
 }
 
+/// Length of the acknowledgement an item sends when it has been initialized (a single tag byte).
+const INITIALIZED_LEN: u64 = 1;
+
 async fn wait_for_initialized(reader: &mut ByteReader) -> Result<(), StoreInitError> {
-    let mut reader = FramedRead::new(reader, StoreInitializedCodec);
+    // Only the acknowledgement may be taken out of the channel. The buffer of the framed reader is
+    // dropped when this returns, along with anything it holds that the item wrote after the
+    // acknowledgement (its first events).
+    let mut reader = FramedRead::new(reader.take(INITIALIZED_LEN), StoreInitializedCodec);
     match reader.next().await {
         Some(Ok(_)) => Ok(()),
         _ => Err(StoreInitError::NoAckFromItem),
